@@ -1,7 +1,1334 @@
-//! `dec.*` and `impl.dec.*` operations (stub; filled in by the owner of this family).
-#![allow(unused_imports, dead_code)]
+//! `dec.*` operations: every decoding door of etherparse, printing every accessor of the result
+//! in the canonical grammar shared with lean/EpModel/Driver/DecRender.lean.
+#![allow(clippy::too_many_arguments)]
 use crate::util::*;
+use etherparse::err::packet::SliceError;
+use etherparse::err::{Layer, LenError};
+use etherparse::*;
 
-pub fn run(_op: &str, _a: &[&str]) -> Option<String> {
-    None
+fn b01(b: bool) -> &'static str {
+    if b {
+        "1"
+    } else {
+        "0"
+    }
+}
+
+pub fn src(s: LenSource) -> &'static str {
+    match s {
+        LenSource::Slice => "Slice",
+        LenSource::MacsecShortLength => "MacsecShortLength",
+        LenSource::Ipv4HeaderTotalLen => "Ipv4HeaderTotalLen",
+        LenSource::Ipv6HeaderPayloadLen => "Ipv6HeaderPayloadLen",
+        LenSource::UdpHeaderLen => "UdpHeaderLen",
+        LenSource::TcpHeaderLen => "TcpHeaderLen",
+        LenSource::ArpAddrLengths => "ArpAddrLengths",
+    }
+}
+
+pub fn layer(l: Layer) -> String {
+    format!("{:?}", l)
+}
+
+pub fn len_err(e: &LenError) -> String {
+    format!(
+        "len(req={},len={},src={},layer={},off={})",
+        e.required_len,
+        e.len,
+        src(e.len_source),
+        layer(e.layer),
+        e.layer_start_offset
+    )
+}
+
+fn sll_err(e: &err::linux_sll::HeaderError) -> String {
+    use err::linux_sll::HeaderError::*;
+    match e {
+        UnsupportedPacketTypeField { packet_type } => format!("LinuxSll(PacketType({}))", packet_type),
+        UnsupportedArpHardwareId { arp_hardware_type } => {
+            format!("LinuxSll(ArpHw({}))", u16::from(*arp_hardware_type))
+        }
+    }
+}
+
+fn macsec_err(e: &err::macsec::HeaderError) -> String {
+    use err::macsec::HeaderError::*;
+    match e {
+        UnexpectedVersion => "Macsec(UnexpectedVersion)".to_string(),
+        InvalidUnmodifiedShortLen => "Macsec(InvalidUnmodifiedShortLen)".to_string(),
+    }
+}
+
+fn ip_err(e: &err::ip::HeaderError) -> String {
+    use err::ip::HeaderError::*;
+    match e {
+        UnsupportedIpVersion { version_number } => format!("Ip(Version({}))", version_number),
+        Ipv4HeaderLengthSmallerThanHeader { ihl } => format!("Ip(Ihl({}))", ihl),
+    }
+}
+
+fn ipv4_err(e: &err::ipv4::HeaderError) -> String {
+    use err::ipv4::HeaderError::*;
+    match e {
+        UnexpectedVersion { version_number } => format!("Ipv4(Version({}))", version_number),
+        HeaderLengthSmallerThanHeader { ihl } => format!("Ipv4(Ihl({}))", ihl),
+    }
+}
+
+fn ipv6_err(e: &err::ipv6::HeaderError) -> String {
+    use err::ipv6::HeaderError::*;
+    match e {
+        UnexpectedVersion { version_number } => format!("Ipv6(Version({}))", version_number),
+    }
+}
+
+fn auth_err_v4(_e: &err::ip_auth::HeaderError) -> String {
+    "Ipv4Exts(ZeroPayloadLen)".to_string()
+}
+
+fn ipv6_exts_err(e: &err::ipv6_exts::HeaderError) -> String {
+    use err::ipv6_exts::HeaderError::*;
+    match e {
+        HopByHopNotAtStart => "Ipv6Exts(HopByHopNotAtStart)".to_string(),
+        IpAuth(_) => "Ipv6Exts(IpAuth(ZeroPayloadLen))".to_string(),
+    }
+}
+
+fn tcp_err(e: &err::tcp::HeaderError) -> String {
+    use err::tcp::HeaderError::*;
+    match e {
+        DataOffsetTooSmall { data_offset } => format!("Tcp(DataOffset({}))", data_offset),
+    }
+}
+
+pub fn perr(e: &SliceError) -> String {
+    match e {
+        SliceError::Len(l) => len_err(l),
+        SliceError::LinuxSll(e) => sll_err(e),
+        SliceError::Macsec(e) => macsec_err(e),
+        SliceError::Ip(e) => ip_err(e),
+        SliceError::Ipv4(e) => ipv4_err(e),
+        SliceError::Ipv6(e) => ipv6_err(e),
+        SliceError::Ipv4Exts(e) => auth_err_v4(e),
+        SliceError::Ipv6Exts(e) => ipv6_exts_err(e),
+        SliceError::Tcp(e) => tcp_err(e),
+    }
+}
+
+fn stop(s: &Option<(SliceError, Layer)>) -> String {
+    match s {
+        None => "none".to_string(),
+        Some((e, l)) => format!("({},{})", perr(e), layer(*l)),
+    }
+}
+
+// ---------------------------------------------------------------------------------------------
+// field lists
+
+fn eth2_fields(dst: [u8; 6], srcm: [u8; 6], et: EtherType) -> String {
+    format!("dst={},src={},et={}", to_hex(&dst), to_hex(&srcm), et.0)
+}
+
+fn sll_proto(p: LinuxSllProtocolType) -> String {
+    match p {
+        LinuxSllProtocolType::Ignored(v) => format!("Ignored({})", v),
+        LinuxSllProtocolType::NetlinkProtocolType(v) => format!("Netlink({})", v),
+        LinuxSllProtocolType::GenericRoutingEncapsulationProtocolType(v) => format!("Gre({})", v),
+        LinuxSllProtocolType::EtherType(v) => format!("EtherType({})", v.0),
+        LinuxSllProtocolType::LinuxNonstandardEtherType(v) => format!("Nonstandard({})", u16::from(v)),
+    }
+}
+
+fn sll_fields(h: &LinuxSllHeader) -> String {
+    format!(
+        "pt={},hw={},alen={},addr={},proto={}",
+        u16::from(h.packet_type),
+        u16::from(h.arp_hrd_type),
+        h.sender_address_valid_length,
+        to_hex(&h.sender_address),
+        sll_proto(h.protocol_type)
+    )
+}
+
+fn vlan_fields(h: &SingleVlanHeader) -> String {
+    format!(
+        "pcp={},dei={},vid={},et={}",
+        h.pcp.value(),
+        b01(h.drop_eligible_indicator),
+        h.vlan_id.value(),
+        h.ether_type.0
+    )
+}
+
+fn macsec_fields(h: &MacsecHeader) -> String {
+    let ptype = match h.ptype {
+        MacsecPType::Unmodified(et) => format!("Unmodified({})", et.0),
+        MacsecPType::Modified => "Modified".to_string(),
+        MacsecPType::Encrypted => "Encrypted".to_string(),
+        MacsecPType::EncryptedUnmodified => "EncryptedUnmodified".to_string(),
+    };
+    format!(
+        "ptype={},es={},scb={},an={},sl={},pn={},sci={}",
+        ptype,
+        b01(h.endstation_id),
+        b01(h.scb),
+        h.an.value(),
+        h.short_len.value(),
+        h.packet_nr,
+        match h.sci {
+            Some(v) => v.to_string(),
+            None => "none".to_string(),
+        }
+    )
+}
+
+fn ipv4_fields(h: &Ipv4Header) -> String {
+    format!(
+        "ihl={},dscp={},ecn={},tl={},id={},df={},mf={},fo={},ttl={},proto={},ck={},src={},dst={}",
+        h.ihl(),
+        h.dscp.value(),
+        h.ecn.value(),
+        h.total_len,
+        h.identification,
+        b01(h.dont_fragment),
+        b01(h.more_fragments),
+        h.fragment_offset.value(),
+        h.time_to_live,
+        h.protocol.0,
+        h.header_checksum,
+        to_hex(&h.source),
+        to_hex(&h.destination)
+    )
+}
+
+fn ipv4_slice_fields(h: &Ipv4HeaderSlice) -> String {
+    format!(
+        "ihl={},dscp={},ecn={},tl={},id={},df={},mf={},fo={},ttl={},proto={},ck={},src={},dst={}",
+        h.ihl(),
+        h.dcp().value(),
+        h.ecn().value(),
+        h.total_len(),
+        h.identification(),
+        b01(h.dont_fragment()),
+        b01(h.more_fragments()),
+        h.fragments_offset().value(),
+        h.ttl(),
+        h.protocol().0,
+        h.header_checksum(),
+        to_hex(&h.source()),
+        to_hex(&h.destination())
+    )
+}
+
+fn ipv6_fields(h: &Ipv6Header) -> String {
+    format!(
+        "tc={},fl={},plen={},nh={},hop={},src={},dst={}",
+        h.traffic_class,
+        h.flow_label.value(),
+        h.payload_length,
+        h.next_header.0,
+        h.hop_limit,
+        to_hex(&h.source),
+        to_hex(&h.destination)
+    )
+}
+
+fn ipv6_slice_fields(h: &Ipv6HeaderSlice) -> String {
+    format!(
+        "tc={},fl={},plen={},nh={},hop={},src={},dst={}",
+        h.traffic_class(),
+        h.flow_label().value(),
+        h.payload_length(),
+        h.next_header().0,
+        h.hop_limit(),
+        to_hex(&h.source()),
+        to_hex(&h.destination())
+    )
+}
+
+fn frag_fields(nh: IpNumber, fo: IpFragOffset, mf: bool, id: u32) -> String {
+    format!("nh={},fo={},mf={},id={}", nh.0, fo.value(), b01(mf), id)
+}
+
+fn udp_fields(sp: u16, dp: u16, len: u16, ck: u16) -> String {
+    format!("sp={},dp={},len={},ck={}", sp, dp, len, ck)
+}
+
+fn tcp_flags(ns: bool, fin: bool, syn: bool, rst: bool, psh: bool, ack: bool, urg: bool, ece: bool, cwr: bool) -> u32 {
+    (ns as u32) * 256
+        + (fin as u32)
+        + (syn as u32) * 2
+        + (rst as u32) * 4
+        + (psh as u32) * 8
+        + (ack as u32) * 16
+        + (urg as u32) * 32
+        + (ece as u32) * 64
+        + (cwr as u32) * 128
+}
+
+fn tcp_hdr_fields(h: &TcpHeader) -> String {
+    format!(
+        "sp={},dp={},seq={},ack={},doff={},flags={},win={},ck={},urg={}",
+        h.source_port,
+        h.destination_port,
+        h.sequence_number,
+        h.acknowledgment_number,
+        h.data_offset(),
+        tcp_flags(h.ns, h.fin, h.syn, h.rst, h.psh, h.ack, h.urg, h.ece, h.cwr),
+        h.window_size,
+        h.checksum,
+        h.urgent_pointer
+    )
+}
+
+fn tcp_slice_fields(h: &TcpSlice) -> String {
+    format!(
+        "sp={},dp={},seq={},ack={},doff={},flags={},win={},ck={},urg={}",
+        h.source_port(),
+        h.destination_port(),
+        h.sequence_number(),
+        h.acknowledgment_number(),
+        h.data_offset(),
+        tcp_flags(h.ns(), h.fin(), h.syn(), h.rst(), h.psh(), h.ack(), h.urg(), h.ece(), h.cwr()),
+        h.window_size(),
+        h.checksum(),
+        h.urgent_pointer()
+    )
+}
+
+fn arp_fields(hw: ArpHardwareId, proto: EtherType, hlen: u8, plen: u8, op: ArpOperation) -> String {
+    format!("hw={},proto={},hlen={},plen={},op={}", u16::from(hw), proto.0, hlen, plen, op.0)
+}
+
+fn ip_pl(num: IpNumber, frag: bool, s: LenSource, base: &[u8], p: &[u8], inc: bool) -> String {
+    format!("(num={},frag={},src={},w={},inc={})", num.0, b01(frag), src(s), win(base, p), b01(inc))
+}
+
+// ---------------------------------------------------------------------------------------------
+// slice family
+
+fn link_slice(base: &[u8], l: &Option<LinkSlice>) -> String {
+    match l {
+        None => "none".to_string(),
+        Some(LinkSlice::Ethernet2(e)) => {
+            // accessors vs to_header must agree
+            let h = e.to_header();
+            let f = eth2_fields(e.destination(), e.source(), e.ether_type());
+            let f2 = eth2_fields(h.destination, h.source, h.ether_type);
+            let pl = e.payload();
+            format!(
+                "eth2(s={},{},pl={}){}",
+                win(base, e.slice()),
+                f,
+                win(base, pl.payload),
+                if f != f2 || pl.ether_type != e.ether_type() || pl.len_source != LenSource::Slice || win(base, e.header_slice()) != format!("({},14)", off(base, e.slice())) || e.payload_slice() != pl.payload {
+                    "!accessor-mismatch"
+                } else {
+                    ""
+                }
+            )
+        }
+        Some(LinkSlice::LinuxSll(s)) => {
+            let h = s.to_header();
+            let pl = s.payload();
+            format!(
+                "sll(s={},{},sa={},pl={}){}",
+                win(base, s.slice()),
+                sll_fields(&h),
+                win(base, s.sender_address()),
+                win(base, pl.payload),
+                if pl.protocol_type != s.protocol_type() || h.packet_type != s.packet_type() || h.arp_hrd_type != s.arp_hardware_type() || win(base, s.header_slice()) != format!("({},16)", off(base, s.slice())) {
+                    "!accessor-mismatch"
+                } else {
+                    ""
+                }
+            )
+        }
+        Some(LinkSlice::EtherPayload(e)) => format!("ep(et={},pl={})", e.ether_type.0, win(base, e.payload)),
+        Some(LinkSlice::LinuxSllPayload(e)) => format!("sllp(proto={},pl={})", sll_proto(e.protocol_type), win(base, e.payload)),
+    }
+}
+
+fn off(base: &[u8], part: &[u8]) -> usize {
+    (part.as_ptr() as usize).wrapping_sub(base.as_ptr() as usize)
+}
+
+fn vlan_slice(base: &[u8], v: &SingleVlanSlice) -> String {
+    let h = v.to_header();
+    let pl = v.payload();
+    format!(
+        "vlan(s={},{},pl={}){}",
+        win(base, v.slice()),
+        vlan_fields(&h),
+        win(base, pl.payload),
+        if pl.ether_type != v.ether_type() || h.vlan_id != v.vlan_identifier() || h.pcp != v.priority_code_point() || h.drop_eligible_indicator != v.drop_eligible_indicator() || win(base, v.header_slice()) != format!("({},4)", off(base, v.slice())) || v.payload_slice() != pl.payload {
+            "!accessor-mismatch"
+        } else {
+            ""
+        }
+    )
+}
+
+fn macsec_hdr_check(h: &MacsecHeaderSlice) -> &'static str {
+    let t = h.to_header();
+    let ok = t.ptype == h.ptype()
+        && t.endstation_id == h.endstation_id()
+        && t.scb == h.tci_scb()
+        && t.an == h.an()
+        && t.short_len == h.short_len()
+        && t.packet_nr == h.packet_nr()
+        && t.sci == h.sci()
+        && h.header_len() == h.slice().len()
+        && h.sci_present() == h.sci().is_some()
+        && h.is_unmodified() == h.next_ether_type().is_some();
+    if ok {
+        ""
+    } else {
+        "!accessor-mismatch"
+    }
+}
+
+fn ext_slice(base: &[u8], e: &LinkExtSlice) -> String {
+    match e {
+        LinkExtSlice::Vlan(v) => vlan_slice(base, v),
+        LinkExtSlice::Macsec(m) => {
+            let (pl, s) = match &m.payload {
+                MacsecPayloadSlice::Unmodified(e) => (e.payload, e.len_source),
+                MacsecPayloadSlice::Modified(p) => (*p, if m.header.expected_payload_len().is_some() { LenSource::MacsecShortLength } else { LenSource::Slice }),
+            };
+            format!(
+                "macsec(h={},{},pl={},plsrc={},inc=0){}",
+                win(base, m.header.slice()),
+                macsec_fields(&m.header.to_header()),
+                win(base, pl),
+                src(s),
+                macsec_hdr_check(&m.header)
+            )
+        }
+    }
+}
+
+fn lax_ext_slice(base: &[u8], e: &LaxLinkExtSlice) -> String {
+    match e {
+        LaxLinkExtSlice::Vlan(v) => vlan_slice(base, v),
+        LaxLinkExtSlice::Macsec(m) => {
+            let (pl, s, inc) = match &m.payload {
+                LaxMacsecPayloadSlice::Unmodified(e) => (e.payload, e.len_source, e.incomplete),
+                LaxMacsecPayloadSlice::Modified { incomplete, payload } => (
+                    *payload,
+                    if m.header.expected_payload_len().is_some() && !*incomplete { LenSource::MacsecShortLength } else { LenSource::Slice },
+                    *incomplete,
+                ),
+            };
+            format!(
+                "macsec(h={},{},pl={},plsrc={},inc={}){}",
+                win(base, m.header.slice()),
+                macsec_fields(&m.header.to_header()),
+                win(base, pl),
+                src(s),
+                b01(inc),
+                macsec_hdr_check(&m.header)
+            )
+        }
+    }
+}
+
+fn ah_slice(base: &[u8], a: &IpAuthHeaderSlice) -> String {
+    let h = a.to_header();
+    format!(
+        "s={},nh={},spi={},seq={},icv={}{}",
+        win(base, a.slice()),
+        a.next_header().0,
+        a.spi(),
+        a.sequence_number(),
+        win(base, a.raw_icv()),
+        if h.next_header != a.next_header() || h.spi != a.spi() || h.sequence_number != a.sequence_number() || h.raw_icv() != a.raw_icv() {
+            "!accessor-mismatch"
+        } else {
+            ""
+        }
+    )
+}
+
+fn ext_iter(base: &[u8], exts: &Ipv6ExtensionsSlice) -> String {
+    let mut items = Vec::new();
+    let mut n = 0usize;
+    for e in exts.clone().into_iter() {
+        n += 1;
+        if n > exts.slice().len() / 4 + 3 {
+            items.push("runaway".to_string());
+            break;
+        }
+        items.push(match e {
+            Ipv6ExtensionSlice::HopByHop(s) => {
+                let _ = s.to_header();
+                format!("HopByHop(s={},nh={})", win(base, s.slice()), s.next_header().0)
+            }
+            Ipv6ExtensionSlice::Routing(s) => {
+                let _ = s.to_header();
+                format!("Routing(s={},nh={})", win(base, s.slice()), s.next_header().0)
+            }
+            Ipv6ExtensionSlice::DestinationOptions(s) => {
+                let _ = s.to_header();
+                format!("DestinationOptions(s={},nh={})", win(base, s.slice()), s.next_header().0)
+            }
+            Ipv6ExtensionSlice::Fragment(s) => {
+                let h = s.to_header();
+                format!(
+                    "Fragment(s={},{}){}",
+                    win(base, s.slice()),
+                    frag_fields(s.next_header(), s.fragment_offset(), s.more_fragments(), s.identification()),
+                    if h.is_fragmenting_payload() != s.is_fragmenting_payload() { "!accessor-mismatch" } else { "" }
+                )
+            }
+            Ipv6ExtensionSlice::Authentication(s) => format!("Authentication({})", ah_slice(base, &s)),
+        });
+    }
+    format!("[{}]", items.join(","))
+}
+
+fn ipv4_slice_str(base: &[u8], h: &Ipv4HeaderSlice, exts: &Ipv4ExtensionsSlice, pl: String) -> String {
+    let th = h.to_header();
+    let mism = ipv4_fields(&th) != ipv4_slice_fields(h) || &th.options[..] != h.options() || h.is_fragmenting_payload() != th.is_fragmenting_payload() || h.version() != 4;
+    format!(
+        "ipv4(h={},{},opts={},auth={},pl={}){}",
+        win(base, h.slice()),
+        ipv4_slice_fields(h),
+        win(base, h.options()),
+        match &exts.auth {
+            None => "none".to_string(),
+            Some(a) => format!("ah({})", ah_slice(base, a)),
+        },
+        pl,
+        if mism { "!accessor-mismatch" } else { "" }
+    )
+}
+
+fn ipv6_slice_str(base: &[u8], h: &Ipv6HeaderSlice, exts: &Ipv6ExtensionsSlice, pl: String) -> String {
+    let th = h.to_header();
+    let mism = ipv6_fields(&th) != ipv6_slice_fields(h) || h.version() != 6 || exts.is_empty() != exts.slice().is_empty();
+    format!(
+        "ipv6(h={},{},exts={},first={},iter={},pl={}){}",
+        win(base, h.slice()),
+        ipv6_slice_fields(h),
+        win(base, exts.slice()),
+        match exts.first_header() {
+            None => "none".to_string(),
+            Some(n) => n.0.to_string(),
+        },
+        ext_iter(base, exts),
+        pl,
+        if mism { "!accessor-mismatch" } else { "" }
+    )
+}
+
+fn arp_slice_str(base: &[u8], a: &ArpPacketSlice) -> String {
+    let p = a.to_packet();
+    let mism = p.sender_hw_addr() != a.sender_hw_addr() || p.sender_protocol_addr() != a.sender_protocol_addr() || p.target_hw_addr() != a.target_hw_addr() || p.target_protocol_addr() != a.target_protocol_addr() || p.hw_addr_type != a.hw_addr_type() || p.operation != a.operation() || p.proto_addr_type != a.proto_addr_type();
+    format!(
+        "arp(s={},{},sha={},spa={},tha={},tpa={}){}",
+        win(base, a.slice()),
+        arp_fields(a.hw_addr_type(), a.proto_addr_type(), a.hw_addr_size(), a.proto_addr_size(), a.operation()),
+        win(base, a.sender_hw_addr()),
+        win(base, a.sender_protocol_addr()),
+        win(base, a.target_hw_addr()),
+        win(base, a.target_protocol_addr()),
+        if mism { "!accessor-mismatch" } else { "" }
+    )
+}
+
+fn net_slice(base: &[u8], n: &Option<NetSlice>) -> String {
+    match n {
+        None => "none".to_string(),
+        Some(NetSlice::Arp(a)) => arp_slice_str(base, a),
+        Some(NetSlice::Ipv4(s)) => {
+            let p = s.payload();
+            let mism = s.payload_ip_number() != p.ip_number || s.is_payload_fragmented() != p.fragmented;
+            format!(
+                "{}{}",
+                ipv4_slice_str(base, &s.header(), &s.extensions(), ip_pl(p.ip_number, p.fragmented, p.len_source, base, p.payload, false)),
+                if mism { "!accessor-mismatch" } else { "" }
+            )
+        }
+        Some(NetSlice::Ipv6(s)) => {
+            let p = s.payload();
+            let mism = s.is_payload_fragmented() != p.fragmented;
+            format!(
+                "{}{}",
+                ipv6_slice_str(base, &s.header(), s.extensions(), ip_pl(p.ip_number, p.fragmented, p.len_source, base, p.payload, false)),
+                if mism { "!accessor-mismatch" } else { "" }
+            )
+        }
+    }
+}
+
+fn lax_net_slice(base: &[u8], n: &Option<LaxNetSlice>) -> String {
+    match n {
+        None => "none".to_string(),
+        Some(LaxNetSlice::Arp(a)) => arp_slice_str(base, a),
+        Some(LaxNetSlice::Ipv4(s)) => {
+            let p = s.payload();
+            ipv4_slice_str(base, &s.header(), &s.extensions(), ip_pl(p.ip_number, p.fragmented, p.len_source, base, p.payload, p.incomplete))
+        }
+        Some(LaxNetSlice::Ipv6(s)) => {
+            let p = s.payload();
+            ipv6_slice_str(base, &s.header(), s.extensions(), ip_pl(p.ip_number, p.fragmented, p.len_source, base, p.payload, p.incomplete))
+        }
+    }
+}
+
+fn udp_slice_str(base: &[u8], u: &UdpSlice) -> String {
+    let h = u.to_header();
+    let mism = h.source_port != u.source_port() || h.length != u.length() || win(base, u.header_slice()) != format!("({},8)", off(base, u.slice()));
+    format!(
+        "udp(s={},{},pl={}){}",
+        win(base, u.slice()),
+        udp_fields(u.source_port(), u.destination_port(), u.length(), u.checksum()),
+        win(base, u.payload()),
+        if mism { "!accessor-mismatch" } else { "" }
+    )
+}
+
+fn tcp_slice_str(base: &[u8], t: &TcpSlice) -> String {
+    let h = t.to_header();
+    let mism = tcp_hdr_fields(&h) != tcp_slice_fields(t) || h.options.as_slice() != t.options() || win(base, t.header_slice()) != format!("({},{})", off(base, t.slice()), t.header_len());
+    // drive the options iterator (bounded) - its items are the subject of C13
+    let mut n = 0;
+    for _ in t.options_iterator() {
+        n += 1;
+        if n > 64 {
+            return "runaway".to_string();
+        }
+    }
+    format!(
+        "tcp(s={},hl={},{},opts={},pl={}){}",
+        win(base, t.slice()),
+        t.header_len(),
+        tcp_slice_fields(t),
+        win(base, t.options()),
+        win(base, t.payload()),
+        if mism { "!accessor-mismatch" } else { "" }
+    )
+}
+
+fn icmp4_slice_str(base: &[u8], i: &Icmpv4Slice) -> String {
+    let h = i.header();
+    let mism = h.header_len() != i.header_len() || h.checksum != i.checksum();
+    format!(
+        "icmp4(s={},type={},code={},ck={},b58={},hl={},pl={}){}",
+        win(base, i.slice()),
+        i.type_u8(),
+        i.code_u8(),
+        i.checksum(),
+        to_hex(&i.bytes5to8()),
+        i.header_len(),
+        win(base, i.payload()),
+        if mism { "!accessor-mismatch" } else { "" }
+    )
+}
+
+fn icmp6_slice_str(base: &[u8], i: &Icmpv6Slice) -> String {
+    let h = i.header();
+    let mism = h.header_len() > i.slice().len().max(8) + 32 || h.checksum != i.checksum() || i.header_len() != 8;
+    let _ = i.payload_slice();
+    format!(
+        "icmp6(s={},type={},code={},ck={},b58={},pl={}){}",
+        win(base, i.slice()),
+        i.type_u8(),
+        i.code_u8(),
+        i.checksum(),
+        to_hex(&i.bytes5to8()),
+        win(base, i.payload()),
+        if mism { "!accessor-mismatch" } else { "" }
+    )
+}
+
+fn tp_slice(base: &[u8], t: &Option<TransportSlice>) -> String {
+    match t {
+        None => "none".to_string(),
+        Some(TransportSlice::Udp(u)) => udp_slice_str(base, u),
+        Some(TransportSlice::Tcp(t)) => tcp_slice_str(base, t),
+        Some(TransportSlice::Icmpv4(i)) => icmp4_slice_str(base, i),
+        Some(TransportSlice::Icmpv6(i)) => icmp6_slice_str(base, i),
+    }
+}
+
+fn sliced(base: &[u8], p: &SlicedPacket) -> String {
+    // formatting must not panic either
+    let _ = format!("{:?}", p);
+    format!(
+        "ok(link={};exts=[{}];net={};tp={};stop=none)",
+        link_slice(base, &p.link),
+        p.link_exts.iter().map(|e| ext_slice(base, e)).collect::<Vec<_>>().join(","),
+        net_slice(base, &p.net),
+        tp_slice(base, &p.transport)
+    )
+}
+
+fn lax_sliced(base: &[u8], p: &LaxSlicedPacket) -> String {
+    let _ = format!("{:?}", p);
+    format!(
+        "ok(link={};exts=[{}];net={};tp={};stop={})",
+        link_slice(base, &p.link),
+        p.link_exts.iter().map(|e| lax_ext_slice(base, e)).collect::<Vec<_>>().join(","),
+        lax_net_slice(base, &p.net),
+        tp_slice(base, &p.transport),
+        stop(&p.stop_err)
+    )
+}
+
+// ---------------------------------------------------------------------------------------------
+// struct family
+
+fn h_link(l: &Option<LinkHeader>) -> String {
+    match l {
+        None => "none".to_string(),
+        Some(LinkHeader::Ethernet2(h)) => format!("eth2({})", eth2_fields(h.destination, h.source, h.ether_type)),
+        Some(LinkHeader::LinuxSll(h)) => format!("sll({})", sll_fields(h)),
+    }
+}
+
+fn h_ext(e: &LinkExtHeader) -> String {
+    match e {
+        LinkExtHeader::Vlan(v) => format!("vlan({})", vlan_fields(v)),
+        LinkExtHeader::Macsec(m) => format!("macsec({})", macsec_fields(m)),
+    }
+}
+
+fn h_raw(h: &Option<Ipv6RawExtHeader>) -> String {
+    match h {
+        None => "none".to_string(),
+        Some(h) => format!("raw(nh={},pl={})", h.next_header.0, to_hex(h.payload())),
+    }
+}
+
+fn h_auth(h: &Option<IpAuthHeader>) -> String {
+    match h {
+        None => "none".to_string(),
+        Some(a) => format!("ah(nh={},spi={},seq={},icv={})", a.next_header.0, a.spi, a.sequence_number, to_hex(a.raw_icv())),
+    }
+}
+
+fn h_ipv6_exts(e: &Ipv6Extensions) -> String {
+    let (routing, fdest) = match &e.routing {
+        None => (None, None),
+        Some(r) => (Some(r.routing.clone()), r.final_destination_options.clone()),
+    };
+    format!(
+        "hbh={},dest={},routing={},fdest={},frag={},auth={}",
+        h_raw(&e.hop_by_hop_options),
+        h_raw(&e.destination_options),
+        h_raw(&routing),
+        h_raw(&fdest),
+        match &e.fragment {
+            None => "none".to_string(),
+            Some(f) => format!("frag({})", frag_fields(f.next_header, f.fragment_offset, f.more_fragments, f.identification)),
+        },
+        h_auth(&e.auth)
+    )
+}
+
+fn h_ip(h: &IpHeaders) -> String {
+    match h {
+        IpHeaders::Ipv4(h, e) => format!("ipv4({},opts={},auth={})", ipv4_fields(h), to_hex(&h.options[..]), h_auth(&e.auth)),
+        IpHeaders::Ipv6(h, e) => format!("ipv6({},{})", ipv6_fields(h), h_ipv6_exts(e)),
+    }
+}
+
+fn h_arp(a: &ArpPacket) -> String {
+    format!(
+        "arp({},sha={},spa={},tha={},tpa={})",
+        arp_fields(a.hw_addr_type, a.proto_addr_type, a.hw_addr_size(), a.protocol_addr_size(), a.operation),
+        to_hex(a.sender_hw_addr()),
+        to_hex(a.sender_protocol_addr()),
+        to_hex(a.target_hw_addr()),
+        to_hex(a.target_protocol_addr())
+    )
+}
+
+fn h_net(n: &Option<NetHeaders>) -> String {
+    match n {
+        None => "none".to_string(),
+        Some(NetHeaders::Ipv4(h, e)) => h_ip(&IpHeaders::Ipv4(h.clone(), e.clone())),
+        Some(NetHeaders::Ipv6(h, e)) => h_ip(&IpHeaders::Ipv6(h.clone(), e.clone())),
+        Some(NetHeaders::Arp(a)) => h_arp(a),
+    }
+}
+
+fn h_tp(t: &Option<TransportHeader>) -> String {
+    match t {
+        None => "none".to_string(),
+        Some(TransportHeader::Udp(u)) => format!("udp({})", udp_fields(u.source_port, u.destination_port, u.length, u.checksum)),
+        Some(TransportHeader::Tcp(t)) => format!("tcp({},opts={})", tcp_hdr_fields(t), to_hex(t.options.as_slice())),
+        Some(TransportHeader::Icmpv4(i)) => {
+            let b = i.to_bytes();
+            format!("icmp4(type={},code={},ck={},hl={})", b[0], b[1], i.checksum, i.header_len())
+        }
+        Some(TransportHeader::Icmpv6(i)) => format!("icmp6(type={},code={},ck={})", i.icmp_type.type_u8(), i.icmp_type.code_u8(), i.checksum),
+    }
+}
+
+fn pay(base: &[u8], p: &PayloadSlice) -> String {
+    match p {
+        PayloadSlice::Empty => "Empty".to_string(),
+        PayloadSlice::Ether(e) => format!("Ether(et={},src={},w={},inc=0)", e.ether_type.0, src(e.len_source), win(base, e.payload)),
+        PayloadSlice::MacsecMod(m) => format!("MacsecMod(w={},inc=0)", win(base, m)),
+        PayloadSlice::Ip(i) => format!("Ip{}", ip_pl(i.ip_number, i.fragmented, i.len_source, base, i.payload, false)),
+        PayloadSlice::Udp(u) => format!("Udp(w={},inc=0)", win(base, u)),
+        PayloadSlice::Tcp(u) => format!("Tcp(w={},inc=0)", win(base, u)),
+        PayloadSlice::Icmpv4(u) => format!("Icmpv4(w={},inc=0)", win(base, u)),
+        PayloadSlice::Icmpv6(u) => format!("Icmpv6(w={},inc=0)", win(base, u)),
+    }
+}
+
+fn lax_pay(base: &[u8], p: &LaxPayloadSlice) -> String {
+    match p {
+        LaxPayloadSlice::Empty => "Empty".to_string(),
+        LaxPayloadSlice::Ether(e) => format!("Ether(et={},src={},w={},inc={})", e.ether_type.0, src(e.len_source), win(base, e.payload), b01(e.incomplete)),
+        LaxPayloadSlice::MacsecModified { payload, incomplete } => format!("MacsecMod(w={},inc={})", win(base, payload), b01(*incomplete)),
+        LaxPayloadSlice::Ip(i) => format!("Ip{}", ip_pl(i.ip_number, i.fragmented, i.len_source, base, i.payload, i.incomplete)),
+        LaxPayloadSlice::Udp { payload, incomplete } => format!("Udp(w={},inc={})", win(base, payload), b01(*incomplete)),
+        LaxPayloadSlice::Tcp { payload, incomplete } => format!("Tcp(w={},inc={})", win(base, payload), b01(*incomplete)),
+        LaxPayloadSlice::Icmpv4 { payload, incomplete } => format!("Icmpv4(w={},inc={})", win(base, payload), b01(*incomplete)),
+        LaxPayloadSlice::Icmpv6 { payload, incomplete } => format!("Icmpv6(w={},inc={})", win(base, payload), b01(*incomplete)),
+        LaxPayloadSlice::LinuxSll(s) => format!("LinuxSll(proto={},w={})", sll_proto(s.protocol_type), win(base, s.payload)),
+    }
+}
+
+fn headers(base: &[u8], p: &PacketHeaders) -> String {
+    let _ = format!("{:?}", p);
+    format!(
+        "ok(link={};exts=[{}];net={};tp={};pay={};stop=none)",
+        h_link(&p.link),
+        p.link_exts.iter().map(h_ext).collect::<Vec<_>>().join(","),
+        h_net(&p.net),
+        h_tp(&p.transport),
+        pay(base, &p.payload)
+    )
+}
+
+fn lax_headers(base: &[u8], p: &LaxPacketHeaders) -> String {
+    let _ = format!("{:?}", p);
+    format!(
+        "ok(link={};exts=[{}];net={};tp={};pay={};stop={})",
+        h_link(&p.link),
+        p.link_exts.iter().map(h_ext).collect::<Vec<_>>().join(","),
+        h_net(&p.net),
+        h_tp(&p.transport),
+        lax_pay(base, &p.payload),
+        stop(&p.stop_err)
+    )
+}
+
+// ---------------------------------------------------------------------------------------------
+// conversions slice -> header structs (the C04 oracle: computed on the implementation only)
+
+fn sliced_to_headers(base: &[u8], p: &SlicedPacket) -> String {
+    let link = match &p.link {
+        Some(l) => l.to_header(),
+        None => None,
+    };
+    let exts: Vec<String> = p.link_exts.iter().map(|e| h_ext(&e.to_header())).collect();
+    let net = match &p.net {
+        None => "none".to_string(),
+        Some(NetSlice::Arp(a)) => h_arp(&a.to_packet()),
+        Some(NetSlice::Ipv4(s)) => h_ip(&IpSlice::Ipv4(s.clone()).to_header()),
+        Some(NetSlice::Ipv6(s)) => h_ip(&IpSlice::Ipv6(s.clone()).to_header()),
+    };
+    let tp = match &p.transport {
+        None => None,
+        Some(TransportSlice::Udp(u)) => Some(TransportHeader::Udp(u.to_header())),
+        Some(TransportSlice::Tcp(t)) => Some(TransportHeader::Tcp(t.to_header())),
+        Some(TransportSlice::Icmpv4(i)) => Some(TransportHeader::Icmpv4(i.header())),
+        Some(TransportSlice::Icmpv6(i)) => Some(TransportHeader::Icmpv6(i.header())),
+    };
+    // remaining payload
+    let payload = match &p.transport {
+        Some(TransportSlice::Udp(u)) => format!("Udp(w={},inc=0)", win(base, u.payload())),
+        Some(TransportSlice::Tcp(t)) => format!("Tcp(w={},inc=0)", win(base, t.payload())),
+        Some(TransportSlice::Icmpv4(i)) => format!("Icmpv4(w={},inc=0)", win(base, i.payload())),
+        Some(TransportSlice::Icmpv6(i)) => format!("Icmpv6(w={},inc=0)", win(base, i.payload())),
+        None => match &p.net {
+            Some(NetSlice::Arp(_)) => "Empty".to_string(),
+            Some(_) => {
+                let i = p.ip_payload().unwrap();
+                format!("Ip{}", ip_pl(i.ip_number, i.fragmented, i.len_source, base, i.payload, false))
+            }
+            None => match p.ether_payload() {
+                Some(e) => format!("Ether(et={},src={},w={},inc=0)", e.ether_type.0, src(e.len_source), win(base, e.payload)),
+                None => match p.link_exts.last() {
+                    Some(LinkExtSlice::Macsec(m)) => match &m.payload {
+                        MacsecPayloadSlice::Modified(x) => format!("MacsecMod(w={},inc=0)", win(base, x)),
+                        _ => "?".to_string(),
+                    },
+                    _ => "NoEtherPayload".to_string(),
+                },
+            },
+        },
+    };
+    format!(
+        "ok(link={};exts=[{}];net={};tp={};pay={};stop=none)",
+        h_link(&link),
+        exts.join(","),
+        net,
+        h_tp(&tp),
+        payload
+    )
+}
+
+fn lax_sliced_to_headers(base: &[u8], p: &LaxSlicedPacket) -> String {
+    let link = match &p.link {
+        Some(l) => l.to_header(),
+        None => None,
+    };
+    let exts: Vec<String> = p.link_exts.iter().map(|e| h_ext(&e.to_header())).collect();
+    let net = match &p.net {
+        None => "none".to_string(),
+        Some(LaxNetSlice::Arp(a)) => h_arp(&a.to_packet()),
+        Some(LaxNetSlice::Ipv4(s)) => h_ip(&IpHeaders::Ipv4(s.header().to_header(), s.extensions().to_header())),
+        Some(LaxNetSlice::Ipv6(s)) => {
+            let (e, _, _, _) = Ipv6Extensions::from_slice_lax(s.header().next_header(), s.extensions().slice());
+            h_ip(&IpHeaders::Ipv6(s.header().to_header(), e))
+        }
+    };
+    let tp = match &p.transport {
+        None => None,
+        Some(TransportSlice::Udp(u)) => Some(TransportHeader::Udp(u.to_header())),
+        Some(TransportSlice::Tcp(t)) => Some(TransportHeader::Tcp(t.to_header())),
+        Some(TransportSlice::Icmpv4(i)) => Some(TransportHeader::Icmpv4(i.header())),
+        Some(TransportSlice::Icmpv6(i)) => Some(TransportHeader::Icmpv6(i.header())),
+    };
+    let ipinc = match &p.net {
+        Some(LaxNetSlice::Ipv4(s)) => s.payload().incomplete,
+        Some(LaxNetSlice::Ipv6(s)) => s.payload().incomplete,
+        _ => false,
+    };
+    let payload = match &p.transport {
+        Some(TransportSlice::Udp(u)) => format!("Udp(w={},inc={})", win(base, u.payload()), b01(ipinc)),
+        Some(TransportSlice::Tcp(t)) => format!("Tcp(w={},inc={})", win(base, t.payload()), b01(ipinc)),
+        Some(TransportSlice::Icmpv4(i)) => format!("Icmpv4(w={},inc={})", win(base, i.payload()), b01(ipinc)),
+        Some(TransportSlice::Icmpv6(i)) => format!("Icmpv6(w={},inc={})", win(base, i.payload()), b01(ipinc)),
+        None => match &p.net {
+            Some(LaxNetSlice::Arp(_)) => "ArpNoPayload".to_string(),
+            Some(_) => {
+                let i = p.ip_payload().unwrap();
+                format!("Ip{}", ip_pl(i.ip_number, i.fragmented, i.len_source, base, i.payload, i.incomplete))
+            }
+            None => match p.ether_payload() {
+                Some(e) => format!("Ether(et={},src={},w={},inc={})", e.ether_type.0, src(e.len_source), win(base, e.payload), b01(e.incomplete)),
+                None => match p.link_exts.last() {
+                    Some(LaxLinkExtSlice::Macsec(m)) => match &m.payload {
+                        LaxMacsecPayloadSlice::Modified { incomplete, payload } => format!("MacsecMod(w={},inc={})", win(base, payload), b01(*incomplete)),
+                        _ => "?".to_string(),
+                    },
+                    _ => "NoEtherPayload".to_string(),
+                },
+            },
+        },
+    };
+    format!(
+        "ok(link={};exts=[{}];net={};tp={};pay={};stop={})",
+        h_link(&link),
+        exts.join(","),
+        net,
+        h_tp(&tp),
+        payload,
+        stop(&p.stop_err)
+    )
+}
+
+// ---------------------------------------------------------------------------------------------
+// IP boundary implementations
+
+fn ip_slice_str(base: &[u8], s: &IpSlice) -> String {
+    match s {
+        IpSlice::Ipv4(s) => net_slice(base, &Some(NetSlice::Ipv4(s.clone()))),
+        IpSlice::Ipv6(s) => net_slice(base, &Some(NetSlice::Ipv6(s.clone()))),
+    }
+}
+
+fn ip_slice_err(e: &err::ip::SliceError) -> String {
+    use err::ip::{HeadersError as H, SliceError as S};
+    match e {
+        S::Len(l) => len_err(l),
+        S::IpHeaders(H::Ip(e)) => ip_err(e),
+        S::IpHeaders(H::Ipv4Ext(e)) => auth_err_v4(e),
+        S::IpHeaders(H::Ipv6Ext(e)) => ipv6_exts_err(e),
+    }
+}
+
+fn ipv4_slice_err(e: &err::ipv4::SliceError) -> String {
+    use err::ipv4::SliceError as S;
+    match e {
+        S::Len(l) => len_err(l),
+        S::Header(e) => ipv4_err(e),
+        S::Exts(e) => auth_err_v4(e),
+    }
+}
+
+fn ipv6_slice_err(e: &err::ipv6::SliceError) -> String {
+    use err::ipv6::SliceError as S;
+    match e {
+        S::Len(l) => len_err(l),
+        S::Header(e) => ipv6_err(e),
+        S::Exts(e) => ipv6_exts_err(e),
+    }
+}
+
+fn lax_hdr_err(e: &err::ip::LaxHeaderSliceError) -> String {
+    use err::ip::LaxHeaderSliceError as S;
+    match e {
+        S::Len(l) => len_err(l),
+        S::Content(e) => ip_err(e),
+    }
+}
+
+fn ipv6_exts_stop(s: &Option<(err::ipv6_exts::HeaderSliceError, Layer)>, v4: bool) -> String {
+    use err::ipv6_exts::HeaderSliceError as S;
+    match s {
+        None => "none".to_string(),
+        Some((S::Len(l), ly)) => format!("({},{})", len_err(l), layer(*ly)),
+        Some((S::Content(c), ly)) => format!(
+            "({},{})",
+            match c {
+                err::ipv6_exts::HeaderError::IpAuth(a) if v4 => auth_err_v4(a),
+                c => ipv6_exts_err(c),
+            },
+            layer(*ly)
+        ),
+    }
+}
+
+fn auth_stop(s: &Option<err::ip_auth::HeaderSliceError>) -> String {
+    use err::ip_auth::HeaderSliceError as S;
+    match s {
+        None => "none".to_string(),
+        Some(S::Len(l)) => format!("({},IpAuthHeader)", len_err(l)),
+        Some(S::Content(c)) => format!("({},IpAuthHeader)", auth_err_v4(c)),
+    }
+}
+
+fn ip_exts_stop(s: &Option<(err::ip_exts::HeadersSliceError, Layer)>) -> String {
+    use err::ip_exts::{HeaderError as H, HeadersSliceError as S};
+    match s {
+        None => "none".to_string(),
+        Some((S::Len(l), ly)) => format!("({},{})", len_err(l), layer(*ly)),
+        Some((S::Content(H::Ipv4Ext(a)), ly)) => format!("({},{})", auth_err_v4(a), layer(*ly)),
+        Some((S::Content(H::Ipv6Ext(c)), ly)) => format!("({},{})", ipv6_exts_err(c), layer(*ly)),
+    }
+}
+
+fn exts_slice_out(
+    base: &[u8],
+    e: &Ipv6ExtensionsSlice,
+    next: IpNumber,
+    rest: &[u8],
+    stop_s: String,
+) -> String {
+    format!(
+        "ok(s={},first={},iter={};next={};frag={};rest={};stop={})",
+        win(base, e.slice()),
+        match e.first_header() {
+            None => "none".to_string(),
+            Some(n) => n.0.to_string(),
+        },
+        ext_iter(base, e),
+        next.0,
+        b01(e.is_fragmenting_payload()),
+        win(base, rest),
+        stop_s
+    )
+}
+
+fn exts_struct_out(base: &[u8], e: &Ipv6Extensions, next: IpNumber, rest: &[u8], stop_s: String) -> String {
+    format!(
+        "ok({};next={};frag={};rest={};stop={})",
+        h_ipv6_exts(e),
+        next.0,
+        b01(e.is_fragmenting_payload()),
+        win(base, rest),
+        stop_s
+    )
+}
+
+pub fn run(op: &str, a: &[&str]) -> Option<String> {
+    let (data, et) = match a {
+        [h] => (hex(h)?, None),
+        [n, h] => (hex(h)?, Some(num::<u16>(n)?)),
+        _ => return None,
+    };
+    let b: &[u8] = &data;
+    Some(match (op, et) {
+        ("dec.sp_eth", None) => match SlicedPacket::from_ethernet(b) {
+            Ok(p) => sliced(b, &p),
+            Err(e) => format!("err({})", perr(&e)),
+        },
+        ("dec.sp_sll", None) => match SlicedPacket::from_linux_sll(b) {
+            Ok(p) => sliced(b, &p),
+            Err(e) => format!("err({})", perr(&e)),
+        },
+        ("dec.sp_et", Some(et)) => match SlicedPacket::from_ether_type(EtherType(et), b) {
+            Ok(p) => sliced(b, &p),
+            Err(e) => format!("err({})", perr(&e)),
+        },
+        ("dec.sp_ip", None) => match SlicedPacket::from_ip(b) {
+            Ok(p) => sliced(b, &p),
+            Err(e) => format!("err({})", perr(&e)),
+        },
+        ("dec.lsp_eth", None) => match LaxSlicedPacket::from_ethernet(b) {
+            Ok(p) => lax_sliced(b, &p),
+            Err(e) => format!("err({})", len_err(&e)),
+        },
+        ("dec.lsp_et", Some(et)) => lax_sliced(b, &LaxSlicedPacket::from_ether_type(EtherType(et), b)),
+        ("dec.lsp_ip", None) => match LaxSlicedPacket::from_ip(b) {
+            Ok(p) => lax_sliced(b, &p),
+            Err(e) => format!("err({})", lax_hdr_err(&e)),
+        },
+        ("dec.ph_eth", None) => match PacketHeaders::from_ethernet_slice(b) {
+            Ok(p) => headers(b, &p),
+            Err(e) => format!("err({})", perr(&e)),
+        },
+        ("dec.ph_et", Some(et)) => match PacketHeaders::from_ether_type(EtherType(et), b) {
+            Ok(p) => headers(b, &p),
+            Err(e) => format!("err({})", perr(&e)),
+        },
+        ("dec.ph_ip", None) => match PacketHeaders::from_ip_slice(b) {
+            Ok(p) => headers(b, &p),
+            Err(e) => format!("err({})", perr(&e)),
+        },
+        ("dec.lph_eth", None) => match LaxPacketHeaders::from_ethernet(b) {
+            Ok(p) => lax_headers(b, &p),
+            Err(e) => format!("err({})", len_err(&e)),
+        },
+        ("dec.lph_sll", None) => match LaxPacketHeaders::from_linux_sll(b) {
+            Ok(p) => lax_headers(b, &p),
+            Err(e) => format!(
+                "err({})",
+                match &e {
+                    err::linux_sll::HeaderSliceError::Len(l) => len_err(l),
+                    err::linux_sll::HeaderSliceError::Content(c) => sll_err(c),
+                }
+            ),
+        },
+        ("dec.lph_et", Some(et)) => lax_headers(b, &LaxPacketHeaders::from_ether_type(EtherType(et), b)),
+        ("dec.lph_ip", None) => match LaxPacketHeaders::from_ip(b) {
+            Ok(p) => lax_headers(b, &p),
+            Err(e) => format!("err({})", lax_hdr_err(&e)),
+        },
+        // implementation-only conversions for the C04 oracle
+        ("impl.dec.sp2ph_eth", None) => match SlicedPacket::from_ethernet(b) {
+            Ok(p) => sliced_to_headers(b, &p),
+            Err(e) => format!("err({})", perr(&e)),
+        },
+        ("impl.dec.sp2ph_et", Some(et)) => match SlicedPacket::from_ether_type(EtherType(et), b) {
+            Ok(p) => sliced_to_headers(b, &p),
+            Err(e) => format!("err({})", perr(&e)),
+        },
+        ("impl.dec.sp2ph_ip", None) => match SlicedPacket::from_ip(b) {
+            Ok(p) => sliced_to_headers(b, &p),
+            Err(e) => format!("err({})", perr(&e)),
+        },
+        ("impl.dec.lsp2lph_eth", None) => match LaxSlicedPacket::from_ethernet(b) {
+            Ok(p) => lax_sliced_to_headers(b, &p),
+            Err(e) => format!("err({})", len_err(&e)),
+        },
+        ("impl.dec.lsp2lph_et", Some(et)) => lax_sliced_to_headers(b, &LaxSlicedPacket::from_ether_type(EtherType(et), b)),
+        ("impl.dec.lsp2lph_ip", None) => match LaxSlicedPacket::from_ip(b) {
+            Ok(p) => lax_sliced_to_headers(b, &p),
+            Err(e) => format!("err({})", lax_hdr_err(&e)),
+        },
+        // IP boundary implementations
+        ("dec.ip_slice", None) => match IpSlice::from_slice(b) {
+            Ok(s) => {
+                let _ = s.to_header();
+                let _ = format!("{:?}", s);
+                format!("ok(ip={};stop=none)", ip_slice_str(b, &s))
+            }
+            Err(e) => format!("err({})", ip_slice_err(&e)),
+        },
+        ("dec.ipv4_slice", None) => match Ipv4Slice::from_slice(b) {
+            Ok(s) => format!("ok(ip={};stop=none)", net_slice(b, &Some(NetSlice::Ipv4(s)))),
+            Err(e) => format!("err({})", ipv4_slice_err(&e)),
+        },
+        ("dec.ipv6_slice", None) => match Ipv6Slice::from_slice(b) {
+            Ok(s) => format!("ok(ip={};stop=none)", net_slice(b, &Some(NetSlice::Ipv6(s)))),
+            Err(e) => format!("err({})", ipv6_slice_err(&e)),
+        },
+        ("dec.ipv6_slice_lax", None) => match Ipv6Slice::from_slice_lax(b) {
+            Ok(s) => format!("ok(ip={};stop=none)", net_slice(b, &Some(NetSlice::Ipv6(s)))),
+            Err(e) => format!("err({})", ipv6_slice_err(&e)),
+        },
+        ("dec.lax_ip_slice", None) => match LaxIpSlice::from_slice(b) {
+            Ok((s, st)) => {
+                let _ = format!("{:?}", s);
+                let (n, v4) = match s {
+                    LaxIpSlice::Ipv4(s) => (LaxNetSlice::Ipv4(s), true),
+                    LaxIpSlice::Ipv6(s) => (LaxNetSlice::Ipv6(s), false),
+                };
+                format!("ok(ip={};stop={})", lax_net_slice(b, &Some(n)), ipv6_exts_stop(&st, v4))
+            }
+            Err(e) => format!("err({})", lax_hdr_err(&e)),
+        },
+        ("dec.lax_ipv4_slice", None) => match LaxIpv4Slice::from_slice(b) {
+            Ok((s, st)) => format!("ok(ip={};stop={})", lax_net_slice(b, &Some(LaxNetSlice::Ipv4(s))), auth_stop(&st)),
+            Err(e) => format!(
+                "err({})",
+                match &e {
+                    err::ipv4::HeaderSliceError::Len(l) => len_err(l),
+                    err::ipv4::HeaderSliceError::Content(c) => ipv4_err(c),
+                }
+            ),
+        },
+        ("dec.lax_ipv6_slice", None) => match LaxIpv6Slice::from_slice(b) {
+            Ok((s, st)) => format!("ok(ip={};stop={})", lax_net_slice(b, &Some(LaxNetSlice::Ipv6(s))), ipv6_exts_stop(&st, false)),
+            Err(e) => format!(
+                "err({})",
+                match &e {
+                    err::ipv6::HeaderSliceError::Len(l) => len_err(l),
+                    err::ipv6::HeaderSliceError::Content(c) => ipv6_err(c),
+                }
+            ),
+        },
+        ("dec.iph", None) => match IpHeaders::from_slice(b) {
+            Ok((h, p)) => format!("ok(ip={};pl={};stop=none)", h_ip(&h), ip_pl(p.ip_number, p.fragmented, p.len_source, b, p.payload, false)),
+            Err(e) => format!(
+                "err({})",
+                match &e {
+                    err::ip::HeadersSliceError::Len(l) => len_err(l),
+                    err::ip::HeadersSliceError::Content(err::ip::HeadersError::Ip(e)) => ip_err(e),
+                    err::ip::HeadersSliceError::Content(err::ip::HeadersError::Ipv4Ext(e)) => auth_err_v4(e),
+                    err::ip::HeadersSliceError::Content(err::ip::HeadersError::Ipv6Ext(e)) => ipv6_exts_err(e),
+                }
+            ),
+        },
+        ("dec.iph_lax", None) => match IpHeaders::from_slice_lax(b) {
+            Ok((h, p, st)) => format!("ok(ip={};pl={};stop={})", h_ip(&h), ip_pl(p.ip_number, p.fragmented, p.len_source, b, p.payload, p.incomplete), ip_exts_stop(&st)),
+            Err(e) => format!("err({})", lax_hdr_err(&e)),
+        },
+        ("dec.iph_v4", None) => match IpHeaders::from_ipv4_slice(b) {
+            Ok((h, p)) => format!("ok(ip={};pl={};stop=none)", h_ip(&h), ip_pl(p.ip_number, p.fragmented, p.len_source, b, p.payload, false)),
+            Err(e) => format!("err({})", ipv4_slice_err(&e)),
+        },
+        ("dec.iph_v4_lax", None) => match IpHeaders::from_ipv4_slice_lax(b) {
+            Ok((h, p, st)) => format!("ok(ip={};pl={};stop={})", h_ip(&h), ip_pl(p.ip_number, p.fragmented, p.len_source, b, p.payload, p.incomplete), auth_stop(&st)),
+            Err(e) => format!("err({})", lax_hdr_err(&e)),
+        },
+        ("dec.iph_v6", None) => match IpHeaders::from_ipv6_slice(b) {
+            Ok((h, p)) => format!("ok(ip={};pl={};stop=none)", h_ip(&h), ip_pl(p.ip_number, p.fragmented, p.len_source, b, p.payload, false)),
+            Err(e) => format!("err({})", ipv6_slice_err(&e)),
+        },
+        ("dec.iph_v6_lax", None) => match IpHeaders::from_ipv6_slice_lax(b) {
+            Ok((h, p, st)) => format!("ok(ip={};pl={};stop={})", h_ip(&h), ip_pl(p.ip_number, p.fragmented, p.len_source, b, p.payload, p.incomplete), ipv6_exts_stop(&st, false)),
+            Err(e) => format!(
+                "err({})",
+                match &e {
+                    err::ipv6::HeaderSliceError::Len(l) => len_err(l),
+                    err::ipv6::HeaderSliceError::Content(c) => ipv6_err(c),
+                }
+            ),
+        },
+        // extension chains
+        ("dec.exts", Some(nh)) => match Ipv6ExtensionsSlice::from_slice(IpNumber(nh as u8), b) {
+            Ok((e, next, rest)) => exts_slice_out(b, &e, next, rest, "none".to_string()),
+            Err(e) => format!(
+                "err({})",
+                match &e {
+                    err::ipv6_exts::HeaderSliceError::Len(l) => len_err(l),
+                    err::ipv6_exts::HeaderSliceError::Content(c) => ipv6_exts_err(c),
+                }
+            ),
+        },
+        ("dec.exts_lax", Some(nh)) => {
+            let (e, next, rest, st) = Ipv6ExtensionsSlice::from_slice_lax(IpNumber(nh as u8), b);
+            exts_slice_out(b, &e, next, rest, ipv6_exts_stop(&st, false))
+        }
+        ("dec.exts_struct", Some(nh)) => match Ipv6Extensions::from_slice(IpNumber(nh as u8), b) {
+            Ok((e, next, rest)) => exts_struct_out(b, &e, next, rest, "none".to_string()),
+            Err(e) => format!(
+                "err({})",
+                match &e {
+                    err::ipv6_exts::HeaderSliceError::Len(l) => len_err(l),
+                    err::ipv6_exts::HeaderSliceError::Content(c) => ipv6_exts_err(c),
+                }
+            ),
+        },
+        ("dec.exts_struct_lax", Some(nh)) => {
+            let (e, next, rest, st) = Ipv6Extensions::from_slice_lax(IpNumber(nh as u8), b);
+            exts_struct_out(b, &e, next, rest, ipv6_exts_stop(&st, false))
+        }
+        // single layers
+        ("dec.eth2", None) => match Ethernet2Slice::from_slice_without_fcs(b) {
+            Ok(s) => format!("ok({};fcs={})", link_slice(b, &Some(LinkSlice::Ethernet2(s.clone()))), match s.fcs() { None => "none".to_string(), Some(f) => to_hex(&f) }),
+            Err(e) => format!("err({})", len_err(&e)),
+        },
+        ("dec.eth2_fcs", None) => match Ethernet2Slice::from_slice_with_crc32_fcs(b) {
+            Ok(s) => format!("ok({};fcs={})", link_slice(b, &Some(LinkSlice::Ethernet2(s.clone()))), match s.fcs() { None => "none".to_string(), Some(f) => to_hex(&f) }),
+            Err(e) => format!("err({})", len_err(&e)),
+        },
+        ("dec.sll", None) => match LinuxSllSlice::from_slice(b) {
+            Ok(s) => format!("ok({})", link_slice(b, &Some(LinkSlice::LinuxSll(s)))),
+            Err(e) => format!(
+                "err({})",
+                match &e {
+                    err::linux_sll::HeaderSliceError::Len(l) => len_err(l),
+                    err::linux_sll::HeaderSliceError::Content(c) => sll_err(c),
+                }
+            ),
+        },
+        ("dec.vlan", None) => match SingleVlanSlice::from_slice(b) {
+            Ok(s) => format!("ok({})", vlan_slice(b, &s)),
+            Err(e) => format!("err({})", len_err(&e)),
+        },
+        ("dec.macsec", None) => match MacsecSlice::from_slice(b) {
+            Ok(s) => format!("ok({})", ext_slice(b, &LinkExtSlice::Macsec(s))),
+            Err(e) => format!(
+                "err({})",
+                match &e {
+                    err::macsec::HeaderSliceError::Len(l) => len_err(l),
+                    err::macsec::HeaderSliceError::Content(c) => macsec_err(c),
+                }
+            ),
+        },
+        ("dec.lax_macsec", None) => match LaxMacsecSlice::from_slice(b) {
+            Ok(s) => format!("ok({})", lax_ext_slice(b, &LaxLinkExtSlice::Macsec(s))),
+            Err(e) => format!(
+                "err({})",
+                match &e {
+                    err::macsec::HeaderSliceError::Len(l) => len_err(l),
+                    err::macsec::HeaderSliceError::Content(c) => macsec_err(c),
+                }
+            ),
+        },
+        ("dec.arp", None) => match ArpPacketSlice::from_slice(b) {
+            Ok(s) => format!("ok({})", arp_slice_str(b, &s)),
+            Err(e) => format!("err({})", len_err(&e)),
+        },
+        ("dec.udp", None) => match UdpSlice::from_slice(b) {
+            Ok(s) => format!("ok({})", udp_slice_str(b, &s)),
+            Err(e) => format!("err({})", len_err(&e)),
+        },
+        ("dec.udp_lax", None) => match UdpSlice::from_slice_lax(b) {
+            Ok(s) => format!("ok({})", udp_slice_str(b, &s)),
+            Err(e) => format!("err({})", len_err(&e)),
+        },
+        ("dec.tcp", None) => match TcpSlice::from_slice(b) {
+            Ok(s) => format!("ok({})", tcp_slice_str(b, &s)),
+            Err(e) => format!(
+                "err({})",
+                match &e {
+                    err::tcp::HeaderSliceError::Len(l) => len_err(l),
+                    err::tcp::HeaderSliceError::Content(c) => tcp_err(c),
+                }
+            ),
+        },
+        ("dec.icmp4", None) => match Icmpv4Slice::from_slice(b) {
+            Ok(s) => format!("ok({})", icmp4_slice_str(b, &s)),
+            Err(e) => format!("err({})", len_err(&e)),
+        },
+        ("dec.icmp6", None) => match Icmpv6Slice::from_slice(b) {
+            Ok(s) => format!("ok({})", icmp6_slice_str(b, &s)),
+            Err(e) => format!("err({})", len_err(&e)),
+        },
+        _ => return None,
+    })
 }
